@@ -661,6 +661,66 @@ func verifRunListing(out *verifkit.Trace, w *verifLW, in verifListingIn) {
 	}
 }
 
+/* a page that holds exactly as many entries as are asked for, each fetched slowly, and whose link to the next page is
+   dead (answered at once): the entries and one error item, none of them missing */
+func verifExactPage(out *verifkit.Trace, w *verifLW) {
+	for round := 0; round < 3; round++ {
+		w.sim.Reset()
+		jtp.VerifSetCache(64)
+		w.sid++
+		w.ownerStyle = "path"
+		n := 4 + round
+		parent := w.A.URL(fmt.Sprintf("/s%d/notes/n", w.sid))
+		w.owner = w.A.URL(fmt.Sprintf("/s%d/actors/o", w.sid))
+		w.publish(w.actor(w.owner, "A"))
+		classes := []string{}
+		refs := []any{}
+		for k := 0; k < n; k++ {
+			r := w.A.URL(fmt.Sprintf("/s%d/r%d", w.sid, k))
+			w.publish(w.note(r, "A", w.owner, parent))
+			if host, target := w.target(r); host != nil {
+				if route := host.Route(target); route != nil {
+					route.Delay = time.Duration(30+10*k) * time.Millisecond
+				}
+			}
+			refs = append(refs, r)
+			classes = append(classes, "legit_ref")
+		}
+		classes = append(classes, "fetch_fails")
+		page := map[string]any{"id": parent + "/replies?page=1", "type": "CollectionPage", "items": refs, "next": w.A.URL(fmt.Sprintf("/s%d/gone", w.sid))}
+		w.publish(page)
+		w.publish(map[string]any{"id": parent + "/replies", "type": "Collection", "first": page["id"]})
+		note := w.note(parent, "A", w.owner, nil)
+		note["replies"] = parent + "/replies"
+		w.publish(note)
+		out.Emit(verifkit.M{"ev": "begin", "sid": w.sid, "kind": "replies", "owner": "path", "classes": classes, "place": "own"})
+		shown := []string{}
+		panicked, what := verifkit.Try(func() {
+			post, err := NewPost(parent, nil)
+			if err != nil {
+				panic(err)
+			}
+			items, _, _ := post.Children().Harvest(uint(n), 0)
+			for _, it := range items {
+				switch x := it.(type) {
+				case nil:
+					shown = append(shown, "nothing")
+				case *Failure:
+					shown = append(shown, "error")
+				default:
+					_ = x
+					shown = append(shown, "genuine")
+				}
+			}
+		})
+		ev := verifkit.M{"ev": "listing", "sid": w.sid, "kind": "replies", "owner": "path", "classes": classes, "shown": shown, "panic": panicked, "place": "own", "pass": 1}
+		if panicked {
+			ev["what"] = what
+		}
+		out.Emit(ev)
+	}
+}
+
 func TestVerifListing(t *testing.T) {
 	var in struct {
 		Sessions []verifListingIn `json:"sessions"`
@@ -700,6 +760,7 @@ func TestVerifListing(t *testing.T) {
 		}
 		verifRunListing(out, w, s)
 	}
+	verifExactPage(out, w)
 }
 
 /* the count a collection states about itself is advisory: accurate, left at 0, stale, or not a number at all */
